@@ -131,7 +131,11 @@ func sortNPMDependencies(deps []RequirementVersion) {
 	// In case of matching lowercase, lower is considered less than upper
 	// ("a" < "A", that is the contrary of what go does, but is logic for
 	// NPM as uppercase is considered deprecated in names, so it favors lower).
-	sort.Slice(deps, func(i, j int) bool {
+	// Stable: two requirements can go by the same name (an aliased dependency
+	// and the bundleDependencies entry of that alias, the same name in two
+	// sections), and the first one met decides what is installed; they keep
+	// the order in which they were given.
+	sort.SliceStable(deps, func(i, j int) bool {
 		a, b := deps[i], deps[j]
 		// Sort dev alone at the end.
 		if devA, devB := a.Type.Equal(dev), b.Type.Equal(dev); devA != devB {
